@@ -795,7 +795,7 @@ func checkLasv2(c s2Case) *vk.Failure {
 	if math.Abs(tmin-math.Abs(ssmin)) > tol || math.Abs(tmax-math.Abs(ssmax)) > tol {
 		return vk.Failf("dlas2-vs-dlasv2", "(%v,%v,%v): Dlas2 (%v,%v), Dlasv2 (%v,%v)", f, g, h, tmin, tmax, ssmin, ssmax)
 	}
-	if math.Abs(csl*csl+snl*snl-1) > 8*eps || math.Abs(csr*csr+snr*snr-1) > 8*eps {
+	if math.Abs(csl*csl+snl*snl-1) > 32*eps || math.Abs(csr*csr+snr*snr-1) > 32*eps {
 		return vk.Failf("rotation-not-unit", "(%v,%v,%v): left (%v,%v) right (%v,%v)", f, g, h, csl, snl, csr, snr)
 	}
 	// [csl snl; -snl csl] [f g; 0 h] [csr -snr; snr csr] = diag(ssmax, ssmin)
